@@ -52,6 +52,7 @@ struct HistEngine : Engine {
 		knobs["dstring_start"] = starts[kn.below(7)];
 		knobs["slab_objects"] = slabs[kn.below(6)];
 		knobs["realloc"] = kn.chance(1, 3) ? 1 : 0;
+		knobs["malloc_fill"] = kn.chance(1, 2) ? 1 : 0;      // fresh heap memory holds garbage that depends on the allocation history (core.h)
 		p["knobs"] = knobs;
 		DocOpts dopt; dopt.images = true;
 		if (w.chance(1, 4)) dopt.emails = false;                  // swarm
@@ -66,6 +67,24 @@ struct HistEngine : Engine {
 			opml_doc = (int)w.below((uint64_t)ndocs);
 			if (!itmz_corpus().empty() && w.chance(1, 3)) { docs[(size_t)opml_doc] = itmz_corpus()[w.below(itmz_corpus().size())]; import_ext = X_PARSE_ITMZ; }
 			else docs[(size_t)opml_doc] = opml_corpus()[w.below(opml_corpus().size())];
+		}
+		if (w.chance(1, 12)) {
+			// swarm: documents nested beyond the parser's depth guard (1000 levels) - legal input that makes the guard itself part of the history
+			int nd = (int)w.range(1, 2);
+			for (int i = 0; i < nd; i++) {
+				int di = (int)w.below((uint64_t)ndocs);
+				if (di == opml_doc) continue;
+				std::string d = "Opening paragraph.\n\n";
+				int chains = (int)w.range(1, 3);
+				for (int c = 0; c < chains; c++) {
+					int depth = (int)w.range(995, 1100);
+					for (int j = 0; j < depth; j++) d += "> ";
+					d += "deep *" + std::to_string(c) + "*\n\nBetween " + std::to_string(c) + ".\n\n";
+				}
+				d += "Closing paragraph.\n";
+				docs[(size_t)di] = d;
+			}
+			p["deep_docs"] = true;
 		}
 		p["docs"] = docs;
 		p["opml_doc"] = opml_doc;
@@ -602,6 +621,7 @@ struct HistEngine : Engine {
 		std::vector<Json> c;
 		const Json & kn = plan.at("knobs");
 		if (kn.geti("realloc")) { Json p = plan; p["knobs"]["realloc"] = 0; c.push_back(p); }
+		if (kn.geti("malloc_fill")) { Json p = plan; p["knobs"]["malloc_fill"] = 0; c.push_back(p); }
 		if (kn.geti("dstring_start") != 1024) { Json p = plan; p["knobs"]["dstring_start"] = 1024; c.push_back(p); }
 		if (kn.geti("slab_objects") != 1024) { Json p = plan; p["knobs"]["slab_objects"] = 1024; c.push_back(p); }
 		const Json & docs = plan.at("docs");
